@@ -140,6 +140,14 @@ fn count_groups(e: &Expr) -> usize {
 /// (name, index) of every named group, by opening-parenthesis order, from the pattern text (corpus patterns have no
 /// escaped parentheses and no parentheses inside classes)
 fn expected_names(pattern: &str) -> Vec<(String, usize)> {
+    // free-spacing mode (only used with a leading `(?x)` in the corpus): a `#` comment runs to the end of the line
+    let stripped: String;
+    let pattern = if pattern.starts_with("(?x)") {
+        stripped = pattern.split('\n').map(|l| l.split('#').next().unwrap_or("")).collect::<Vec<_>>().join("\n");
+        stripped.as_str()
+    } else {
+        pattern
+    };
     let b = pattern.as_bytes();
     let mut out = vec![];
     let mut idx = 0usize;
@@ -176,6 +184,10 @@ fn group_patterns() -> Vec<&'static str> {
     vec![
         r"(a)|(b)", r"(a)?(b)(?=c)", r"((?<n>a))", r"(x(?P<n>a)(y))(?<m>z)", r"(?:a+)*", r"(?:a?){2}(?<n>b)", r"(x)(?:\d{2})+?(?<n>y)", r"(?:a+)*(?!c)",
         r"(?<a>a)(?<b>b)?\k<a>", r"(a)(b)(c)", r"(?:(?>(a)|b))+", r"(?:(?:(a)|b)(?!c))+", r"(?<!x)", r"(a)(?=b)", r"(é)(?=a)",
+        // references spelled with numbers through the NAMED syntax name nothing: the group stays unnamed
+        r"(a)(b)\k<-1>", r"(a)(b)\k<2>", r"(a)(b)\k'-1'", r"(a)(?P=1)", r"(?<x>a)(b)\k<-1>\k<x>", r"(a)(b)?(?(<-1>)y|z)", r"(a)\k<1>(b)\k<-1>",
+        // free-spacing mode: a `#` comment runs to the end of the line, whatever characters and parentheses it contains
+        "(?x)(a) # naïve → same as f()\n(?<v>b)", "(?x)(a) # €€€ (x) (y)\n(b)(?=c)", "(?x) (a) # ()\n (?<n>b) # 😀 (\n (c)",
     ]
 }
 
